@@ -201,3 +201,116 @@ class Daemon:
             ran.append(r)
             limit -= 1
         return ran
+
+
+class _ThreadAbort:
+    """stand-in for alpenhorn.scheduler.global_abort shared by all persistent daemons: each daemon's main-loop thread sees
+    its own flag, and `wait()` (the sleep at the end of a loop iteration) hands control back to the harness"""
+
+    def __init__(self):
+        self.by_thread = {}
+
+    def _d(self):
+        import threading
+        return self.by_thread.get(threading.get_ident())
+
+    def is_set(self):
+        d = self._d()
+        return bool(d and d.stopping)
+
+    def set(self):
+        d = self._d()
+        if d:
+            d.aborted = True
+            d.stopping = True
+
+    def clear(self):
+        pass
+
+    def wait(self, timeout=None):
+        d = self._d()
+        if d is None:
+            return False
+        d.iter_done.release()
+        d.go.acquire()
+        return d.stopping
+
+
+_ABORT = _ThreadAbort()
+
+
+class PersistentDaemon(Daemon):
+    """a daemon whose `update_loop` keeps running across iterations (its node/group objects, group I/O caches and HSM
+    bookkeeping persist, as in a real daemon): the loop runs in its own thread and is parked inside `global_abort.wait`
+    between iterations.  Needs a file database (every thread has its own connection)."""
+
+    def __init__(self, env, host):
+        super().__init__(env, host)
+        import threading
+        self.go = threading.Semaphore(0)
+        self.iter_done = threading.Semaphore(0)
+        self.stopping = False
+        self.aborted = False
+        self.thread = None
+        self.error = None
+        self.iterations = 0
+
+    def _main(self):
+        import threading
+        _ABORT.by_thread[threading.get_ident()] = self
+        try:
+            self.upd.update_loop(self.queue, self.pool, once=False)
+        except BaseException as ex:  # noqa
+            self.error = ex
+        finally:
+            _ABORT.by_thread.pop(threading.get_ident(), None)
+            try:
+                self.env.db.database_proxy.close()
+            except Exception:
+                pass
+            self.finished = True
+            self.iter_done.release()
+
+    def iterate(self):
+        import threading
+        upd = self.upd
+        self.env.set_host(self.host)
+        if upd.global_abort is not _ABORT:
+            PersistentDaemon._saved = (upd.serial_io, upd.global_abort)
+            upd.serial_io = lambda q: None
+            upd.global_abort = _ABORT
+        if self.thread is None:
+            self.finished = False
+            self.thread = threading.Thread(target=self._main, daemon=True)
+            self.thread.start()
+        else:
+            if self.finished:
+                raise RuntimeError(f"daemon on {self.host} has exited: {self.error!r}")
+            self.go.release()
+        if not self.iter_done.acquire(timeout=120):
+            raise RuntimeError("update iteration did not finish within 120 s")
+        self.iterations += 1
+        if self.error is not None:
+            err, self.error = self.error, None
+            self.thread = None
+            raise err
+        return self.pending()
+
+    def stop(self):
+        if self.thread is not None and not getattr(self, "finished", True):
+            self.stopping = True
+            self.go.release()
+            self.thread.join(timeout=10)
+        import threading
+        self.thread = None
+        self.stopping = False
+        self.error = None
+        self.go = threading.Semaphore(0)          # fresh semaphores: the exiting loop released iter_done once more
+        self.iter_done = threading.Semaphore(0)
+
+
+def restore_update_globals():
+    import alpenhorn.daemon.update as upd
+    saved = getattr(PersistentDaemon, "_saved", None)
+    if saved is not None and upd.global_abort is _ABORT:
+        upd.serial_io, upd.global_abort = saved
